@@ -163,6 +163,8 @@ def brief(a, k=6):
 # ----------------------------------------------------------------------------------------------------------
 def evaluate(case):
     """list of (clause, expected, observed) that fail for this case"""
+    if case.get("api") == "history":
+        return evaluate_history(case)
     bad = []
     t, x = materialise(case["sig"])
     api = case["api"]
@@ -285,6 +287,197 @@ def evaluate(case):
         if abs(fp - f0) > 1.0 * df:
             bad.append(("the spectrum peaks at the frequency of the dominant sinusoid (within one frequency step)", f0, fp))
     return bad
+
+
+# ----------------------------------------------------------------------------------------------------------
+# operation histories on long-lived objects
+# ----------------------------------------------------------------------------------------------------------
+def _errkind(e):
+    if isinstance(e, ValueError):
+        return ("err", "guard" if GUARD_MSG in str(e) else "value")
+    return ("err", "exc:" + type(e).__name__)
+
+
+def _opts(st):
+    return {k: (tuple(v) if isinstance(v, list) else v) for k, v in (st.get("options") or {}).items()}
+
+
+def call_obj(ts, st):
+    """one spectrum request (TimeSeries.psd or the GUI's calculate_psd) on an existing object"""
+    from qats.app.funcs import calculate_psd
+    try:
+        if st["op"] == "psd":
+            f, p = ts.psd(nperseg=st.get("nperseg"), noverlap=st.get("noverlap"), nfft=st.get("nfft"),
+                          normalize=bool(st.get("normalize", False)), **_opts(st))
+        else:
+            tw = st.get("twin")
+            f, p = calculate_psd({"a": ts}, tuple(tw) if tw else None, None, st["nperseg"], bool(st.get("normalize", False)))["a"]
+        return ("ok", np.array(f, dtype=float), np.array(p, dtype=float))
+    except Exception as e:  # noqa
+        return _errkind(e)
+
+
+def _argkey(st):
+    return repr((st["op"], st.get("nperseg"), st.get("noverlap"), st.get("nfft"), bool(st.get("normalize", False)),
+                 sorted((st.get("options") or {}).items()), st.get("twin")))
+
+
+def _show(r):
+    return brief(r[2]) if r[0] == "ok" else list(r)
+
+
+def evaluate_history(case):
+    """A sequence of requests and data updates on the same TimeSeries object(s). After every request the clauses are
+    evaluated for the data the series holds at that moment (a shadow copy of (t, x) updated by the same operations)."""
+    import copy as _copy
+    from qats import TimeSeries
+    bad = []
+    t0, x0 = materialise(case["sig"])
+    checks = case.get("checks", [])
+    objs = [dict(ts=TimeSeries("a", t0, x0), t=np.array(t0), x=np.array(x0), sig=case["sig"], prev={})]
+    cur = 0
+
+    def report(clause, i, exp, obs):
+        bad.append((clause, dict(step=i, value=exp), dict(step=i, value=obs)))
+
+    for i, st in enumerate(case["steps"]):
+        o = objs[cur]
+        op = st["op"]
+        if op in ("scale", "shift"):
+            v = st["v"]
+            if op == "scale":
+                if st.get("how") == "inplace":
+                    o["ts"].x *= v
+                else:
+                    o["ts"].x = v * o["ts"].x
+                o["x"] = v * o["x"]
+            else:
+                if st.get("how") == "inplace":
+                    o["ts"].x += v
+                else:
+                    o["ts"].x = o["ts"].x + v
+                o["x"] = o["x"] + v
+            for pv in o["prev"].values():
+                if op == "scale":
+                    pv["a"] *= v
+                else:
+                    pv["shifted"] = True
+                pv["ratio"] = max(pv["ratio"], _ratio(o["x"]))
+        elif op == "replace":
+            sig2 = dict(st["sig"])
+            n = o["x"].size
+            if "x" in sig2:
+                xn = np.resize(np.array(sig2["x"], dtype=float), n)
+            else:
+                sig2["n"] = n
+                xn = materialise(sig2)[1]
+            if st.get("how") == "slice":
+                o["ts"].x[:] = xn
+            else:
+                o["ts"].x = np.array(xn)
+            o["x"], o["sig"], o["prev"] = np.array(xn), sig2, {}
+        elif op == "poke":
+            j = st["i"] % o["x"].size
+            o["ts"].x[j] += st["v"]
+            o["x"][j] += st["v"]
+            o["prev"] = {}
+        elif op == "modify":
+            try:
+                o["t"], o["x"] = [np.array(v, dtype=float) for v in TimeSeries("s", o["t"].copy(), o["x"].copy()).get(**_opts(st))]
+                o["ts"].modify(**_opts(st))
+            except Exception:  # noqa  (a window / step this series does not support: not this property's subject)
+                return bad
+            o["prev"] = {}
+        elif op == "fork":
+            if st.get("how") == "ctor":
+                new = TimeSeries("b", o["ts"].t, o["ts"].x)
+            elif st.get("how") == "copy.copy":
+                new = _copy.copy(o["ts"])
+            else:
+                new = o["ts"].copy()
+            objs.append(dict(ts=new, t=o["t"].copy(), x=o["x"].copy(), sig=o["sig"], prev={}))
+            cur = len(objs) - 1
+        elif op == "switch":
+            cur = st["to"] % len(objs)
+        elif op == "read":
+            try:
+                getattr(o["ts"], st["what"])()
+            except Exception:  # noqa
+                pass
+        elif op in ("psd", "gui"):
+            norm = bool(st.get("normalize", False))
+            tc, xc = o["t"], o["x"]
+            r = call_obj(o["ts"], st)
+            fresh = call_obj(TimeSeries("a", tc.copy(), xc.copy()), st)
+            ratio = _ratio(xc)
+            skipval = not np.isfinite(ratio)             # constant data: the spectrum is rounding noise
+            key = _argkey(st)
+            pv = o["prev"].get(key)
+            # -- the definition, for the data the series holds now ------------------------------------------------
+            if op == "psd":
+                try:
+                    tp, xp = TimeSeries("a", tc.copy(), xc.copy()).get(**_opts(st))
+                    ref = ("ok",) + ref_ts(np.asarray(tp, dtype=float), np.asarray(xp, dtype=float), st.get("nperseg"),
+                                           st.get("noverlap"), st.get("nfft"), norm)
+                except Exception as e:  # noqa
+                    ref = _errkind(e)
+            else:
+                ref = fresh
+            failed = False
+            if ref[0] != r[0] or (ref[0] == "err" and ref[1] != r[1]):
+                report("after updates of the series' data, the outcome (spectrum / ValueError) is the one the definition prescribes "
+                       "for the data the series holds now", i, ref[:2] if ref[0] == "err" else "spectrum", r[:2] if r[0] == "err" else "spectrum")
+                failed = True
+            elif r[0] == "ok" and not skipval:
+                dtc = float(np.mean(np.diff(tc)))
+                sc = 1.0 if norm else scale_of(ref[2], xc, dtc)
+                tol = (1e-9 + 4e-15 * ratio) * sc
+                if not same(r[1], ref[1], 1e-9 * (1 + float(np.max(np.abs(ref[1]))) if ref[1].size else 1.0)) or not same(r[2], ref[2], tol):
+                    report("after updates of the series' data (assignment / in-place change of x, modify, copies), the spectrum is "
+                           "Welch's density of the data the series holds now" + ("" if op == "psd" else " (GUI path: same as for a new series with that data)"),
+                           i, dict(f=brief(ref[1], 3), p=brief(ref[2])), dict(f=brief(r[1], 3), p=brief(r[2])))
+                    failed = True
+                elif fresh[0] != "ok" or not same(fresh[2], r[2], 1e-12 * sc) or not same(fresh[1], r[1], 0.0):
+                    report("the spectrum depends only on the series' current data and the arguments: a long-lived object and a new "
+                           "TimeSeries of the same (t, x) give the same spectrum", i, _show(fresh), _show(r))
+                    failed = True
+            # -- amplitude^2 / constant offset relative to the previous identical request ------------------------------------------
+            if not failed and pv is not None and r[0] == "ok" and pv["r"][0] == "ok" and not skipval and np.isfinite(pv["ratio"]):
+                a = pv["a"]
+                exp = pv["r"][2] if norm else a * a * pv["r"][2]
+                sc = 1.0 if norm else a * a * pv["sc"]
+                tol = (1e-8 + 1e-13 * max(ratio, pv["ratio"])) * sc
+                if a != 0 and (not same(r[2], exp, tol) or not same(r[1], pv["r"][1], 0.0)):
+                    report("multiplying the series' data by a (and adding constants) between two identical requests multiplies the "
+                           "densities by a^2 (normalised: leaves them unchanged)", i, dict(a=a, p=brief(exp)), dict(a=a, p=brief(r[2])))
+                    failed = True
+            if r[0] == "ok" and not skipval:
+                dtc = float(np.mean(np.diff(tc)))
+                o["prev"][key] = dict(r=r, a=1.0, shifted=False, ratio=ratio, sc=1.0 if norm else scale_of(r[2], xc, dtc))
+            else:
+                o["prev"].pop(key, None)
+            # -- measurements on stationary signals --------------------------------------------------------------------------------------
+            if not failed and r[0] == "ok" and not st.get("options") and not st.get("twin"):
+                f, p = r[1], r[2]
+                if "area" in checks and not norm:
+                    var, area = float(np.var(xc)), float(np.trapezoid(p, f))
+                    lo, hi = (0.92, 1.03) if op == "gui" else (0.97, 1.03)
+                    if not (lo * var <= area <= hi * var):
+                        report("the area under the density reproduces the variance of the stationary signal the series holds now", i, var, area)
+                if "peak" in checks and o["sig"].get("tones"):
+                    f0 = o["sig"]["tones"][0][1]
+                    fp = float(f[int(np.nanargmax(p))])
+                    if abs(fp - f0) > 1.0 * float(f[1] - f[0]):
+                        report("the spectrum peaks at the frequency of the dominant sinusoid of the signal the series holds now", i, f0, fp)
+    return bad
+
+
+def _ratio(x):
+    """largest magnitude over the standard deviation: how much of the float precision the offset consumes (inf: constant)"""
+    s = float(np.std(x)) if len(x) else 0.0
+    m = float(np.max(np.abs(x))) if len(x) else 0.0
+    return m / s if s > 1e-13 * max(m, 1e-300) else float("inf")
+
 
 
 # ----------------------------------------------------------------------------------------------------------
